@@ -27,11 +27,15 @@ func TestMain(m *testing.M) { ev.Main(m, "C07", "exploration") }
 type Case struct {
 	H     hgen.History `json:"h"`
 	Batch []int        `json:"batch,omitempty"`
+	// Every > 1: contents are read back only after every n-th request (and at the end)
+	Every int `json:"every,omitempty"`
+	// Net: the server sits behind a real grpc.Server over bufconn (every response is marshalled)
+	Net bool `json:"net,omitempty"`
 }
 
 func setup() {
 	c := ev.C()
-	c.Rule = "RIB contents reached through Modify (in-process streams) by model-aimed histories whose payloads populate every field the fluent builders can set (addresses, MAC, interface/subinterface, IP-in-IP, encap/decap header, encap-header list with MPLS stacks and UDPv6 fields, pushed/popped label stacks with duplicates, pop-top-label, next-hop NI, weights incl. 0, backup group, metadata, cross-NI group references); then every request in {DEFAULT,VRF-A,VRF-B,all,unknown} x {ALL,IPV4,IPV6,MPLS,NEXTHOP_GROUP,NEXTHOP}. Oracle: key set == model for the scope, payload proto.Equal (keyed lists canonicalised) to the last programmed payload, every entry tagged with its NI, Get(ALL) == disjoint union of per-table Gets, Get(all) == union of per-NI Gets, empty scope -> empty OK stream, unknown NI -> no entries, rib.FromGetResponses(...).RIBContents() == source contents. Non-trivial = >=3 distinct optional payload fields populated among installed entries and >=2 network instances non-empty; distinct by FNV-64 of the case JSON."
+	c.Rule = "RIB contents reached through Modify (in-process streams; one case in four through a real grpc.Server over bufconn, so that every response is marshalled and parsed; one in three with the contents read back only after every 2nd-6th request) by model-aimed histories whose payloads populate every field the fluent builders can set (addresses, MAC, interface/subinterface, IP-in-IP, encap/decap header, encap-header list with MPLS stacks and UDPv6 fields, pushed/popped label stacks with duplicates, pop-top-label, next-hop NI, weights incl. 0, backup group, metadata, cross-NI group references); then every request in {DEFAULT,VRF-A,VRF-B,all,unknown} x {ALL,IPV4,IPV6,MPLS,NEXTHOP_GROUP,NEXTHOP}. Oracle: key set == model for the scope, payload proto.Equal (keyed lists canonicalised) to the last programmed payload, every entry tagged with its NI, Get(ALL) == disjoint union of per-table Gets, Get(all) == union of per-NI Gets, empty scope -> empty OK stream, unknown NI -> no entries, rib.FromGetResponses(...).RIBContents() == source contents. Non-trivial = >=3 distinct optional payload fields populated among installed entries and >=2 network instances non-empty; distinct by FNV-64 of the case JSON."
 	c.Assumptions = []string{"payloads are schema-valid; keyed proto lists are unordered (canonicalised by key), leaf-lists ordered"}
 }
 
@@ -213,7 +217,7 @@ var fieldNames = []string{"pop_top_label", "entry_metadata", "weight", "backup_n
 func runCase(c Case) *ev.Verdict {
 	fields := map[string]bool{}
 	nis := map[string]bool{}
-	v, _ := l2.RunHistory(c.H, l2.Opts{P: "C07", Trusted: true, Batch: c.Batch, Final: func(s *drive.Srv, m *model.RIB, vv *ev.Verdict) {
+	v, _ := l2.RunHistory(c.H, l2.Opts{P: "C07", Trusted: true, Batch: c.Batch, ObserveEvery: c.Every, Net: c.Net, Final: func(s *drive.Srv, m *model.RIB, vv *ev.Verdict) {
 		for k, p := range m.Ent {
 			nis[k.NI] = true
 			txt := fmt.Sprint(p)
@@ -258,6 +262,10 @@ func drawCase(rt *rapid.T) Case {
 	cfg.MinLen, cfg.MaxLen = 6, 30
 	c := Case{H: hgen.DrawHistory(rt, cfg)}
 	c.Batch = []int{rapid.IntRange(1, 8).Draw(rt, "batch")}
+	if rapid.IntRange(0, 2).Draw(rt, "sparse-reads?") == 0 {
+		c.Every = rapid.IntRange(2, 6).Draw(rt, "every")
+	}
+	c.Net = rapid.IntRange(0, 3).Draw(rt, "net?") == 0
 	return c
 }
 
